@@ -165,3 +165,43 @@ m("c04-lganm-sample-observational-mean", ["C04"], "sempler/lganm.py", "        i
   "        if not population:\n            distribution = NormalDistribution(np.linalg.inv(np.eye(self.p) - self.W.T) @ self.means, covariance)\n            return distribution.sample(n, random_state=random_state)", note="finite samples use the observational mean; the population object is right")
 m("c04-anm-noise-iv-keeps-mean", ["C04"], "sempler/anm.py", "                    noise = noise_interventions[i](n)\n", "                    noise = noise_interventions[i](n)\n                    noise = noise - noise.mean() + self.noise_distributions[i](n).mean() if n > 2 else noise\n", note="noise intervention keeps the original noise mean")
 m("c04-point-mass-jitter", ["C04"], "sempler/lganm.py", "        covariance = A @ np.diag(variances) @ A.T\n", "        covariance = A @ np.diag(variances) @ A.T\n        covariance = covariance + (1e-4 * np.eye(self.p) if not population else 0)\n", note="regularises the covariance before sampling: point masses are no longer constants")
+
+# ---- C17
+m("c17-dead-remainder-branch", ["C17"], U, "            if i < n_folds - 1:\n                fold_size = round(n * ratio)\n                fold_sample = sample[start:start + fold_size]\n                start += fold_size\n            else:\n                fold_sample = sample[start::]\n            folds[i].append(fold_sample)\n",
+  "            if i < n_folds:\n                fold_size = round(n * ratio)\n                fold_sample = sample[start:start + fold_size]\n            else:\n                fold_sample = sample[start::]\n            folds[i].append(fold_sample)\n            start += fold_size\n", note="the pinned tree's behaviour")
+m("c17-exact-sum-check", ["C17"], U, "    if not np.isclose(np.sum(ratios), 1, rtol=0, atol=1e-8):", "    if np.sum(ratios) != 1:", note="the pinned tree's behaviour")
+m("c17-int-truncation", ["C17"], U, "                fold_size = round(n * ratio)", "                fold_size = int(n * ratio)")
+m("c17-shuffle-concatenation", ["C17"], U, "    for sample in data:\n        n = len(sample)\n        sample = sample.copy()\n        rng.shuffle(sample)",
+  "    pooled = np.concatenate(data) if len(data) > 1 and all(s.ndim == 2 for s in data) else None\n    if pooled is not None:\n        rng.shuffle(pooled)\n    offset = 0\n    for sample in data:\n        n = len(sample)\n        sample = sample.copy()\n        rng.shuffle(sample)\n        if pooled is not None:\n            sample = pooled[offset:offset + n]\n            offset += n",
+  note="rows migrate between environments; sizes stay right")
+m("c17-seed-ignored", ["C17", "C13"], U, "    rng = np.random.default_rng(random_state)\n    for sample in data:", "    rng = np.random.default_rng(42)\n    for sample in data:")
+m("c17-shuffle-in-place", ["C17", "C14"], U, "        sample = sample.copy()\n        rng.shuffle(sample)", "        rng.shuffle(sample)")
+m("c17-loose-sum-check", ["C17"], U, "    if not np.isclose(np.sum(ratios), 1, rtol=0, atol=1e-8):", "    if not np.isclose(np.sum(ratios), 1, rtol=0, atol=1e-2):")
+m("c17-overlapping-folds", ["C17"], U, "                start += fold_size\n", "                start += fold_size if n != 13 else max(fold_size - 1, 0)\n", note="needs n = 13: one row duplicated across folds, one lost")
+
+# ---- C19
+SE = "sempler/semi.py"
+m("c19-bootstrap-same-seed", ["C19"], SE, "                        self._data[k][:, i], n[k], random_state=rng\n", "                        self._data[k][:, i], n[k], random_state=random_state\n", note="the pinned tree: all source nodes share their bootstrap indices when seeded")
+m("c19-global-generator-unseeded", ["C19"], SE, "        np.random.seed(random_state) if random_state is not None else None\n        # Generate a sample for each environment", "        # Generate a sample for each environment", note="the pinned tree: forest draws not reproducible")
+m("c19-no-length-check", ["C19"], SE, "            if len(n) != self.e:\n                raise ValueError(_N_TYPE_ERROR)\n", "", note="the pinned tree")
+m("c19-parents-from-raw-data", ["C19"], SE, "                    new_data = pd.DataFrame(sample[:, sorted(parents)])", "                    new_data = pd.DataFrame(self._data[k][:n[k], sorted(parents)] if n[k] <= self.Ns[k] else sample[:, sorted(parents)])")
+m("c19-unsorted-parents-at-predict", ["C19"], SE, "                    new_data = pd.DataFrame(sample[:, sorted(parents)])", "                    new_data = pd.DataFrame(sample[:, sorted(parents, reverse=True)])")
+m("c19-forest-of-env0", ["C19"], SE, "                    forest = self._random_forests[i, k]", "                    forest = self._random_forests[i, 0]")
+m("c19-seed-falsy", ["C19"], SE, "        np.random.seed(random_state) if random_state is not None else None\n        # Generate", "        np.random.seed(random_state) if random_state else None\n        # Generate", note="needs random_state = 0")
+m("c19-fit-on-all-environments", ["C19"], SE, "                    Y = pd.DataFrame(self._data[k][:, i])\n                    X = pd.DataFrame(self._data[k][:, sorted(parents)])",
+  "                    Y = pd.DataFrame(np.vstack(self._data)[:, i])\n                    X = pd.DataFrame(np.vstack(self._data)[:, sorted(parents)])")
+m("c19-drf-sample-uniform-weights", ["C19"], "drf/code.py", "                  ids = np.random.choice(range(Y.shape[0]), 1, p=weights[i, :])[0]", "                  ids = np.random.choice(range(Y.shape[0]), 1)[0]", note="ignores the forest weights: value no longer depends on the parents")
+m("c19-ordering-index-order", ["C19"], SE, "            for i in self._ordering:", "            for i in range(self.p):", note="children generated before their parents: queries use zeros")
+m("c19-data-not-copied", ["C19", "C14"], SE, "        self._data = copy.deepcopy(data)", "        self._data = data")
+
+# ---- C13
+m("c13-nd-seed-falsy", ["C13"], ND, "        np.random.seed(random_state) if random_state is not None else None\n        return np.random.multivariate_normal", "        np.random.seed(random_state) if random_state else None\n        return np.random.multivariate_normal", note="needs random_state = 0")
+m("c13-anm-seed-falsy", ["C13"], "sempler/anm.py", "        np.random.seed(random_state) if random_state is not None else None", "        np.random.seed(random_state) if random_state else None", note="needs random_state = 0")
+m("c13-dag-full-ignores-seed", ["C13"], GEN, "    rng = np.random.default_rng(random_state)\n    # Build a triangular matrix", "    rng = np.random.default_rng(random_state if random_state != 1 else None)\n    # Build a triangular matrix", note="needs seed 1")
+m("c13-split-global-shuffle", ["C13"], U, "        rng.shuffle(sample)\n        start = 0", "        np.random.shuffle(sample)\n        start = 0")
+m("c13-lganm-sample-memoised", ["C13"], "sempler/lganm.py", "        if not population:\n            return distribution.sample(n, random_state=random_state)",
+  "        if not population:\n            key = (n, repr(do_interventions), repr(shift_interventions), repr(noise_interventions))\n            cache = self.__dict__.setdefault('_cache', {})\n            if random_state is None and key in cache:\n                return cache[key]\n            cache[key] = distribution.sample(n, random_state=random_state)\n            return cache[key]",
+  note="unseeded samples are cached by arguments: consecutive unseeded calls on one model are identical")
+m("c13-lganm-ctor-means-global", ["C13"], "sempler/lganm.py", "            self.means = rng.uniform(means[0], means[1], size=self.p)", "            self.means = np.random.uniform(means[0], means[1], size=self.p)")
+m("c13-intervention-targets-global-choice", ["C13"], GEN, "            intervention = list(rng.choice(list(remaining_targets), size=sizes[i], replace=False))", "            intervention = list(np.random.choice(list(remaining_targets), size=sizes[i], replace=False))", note="only the without-replacement branch")
+m("c13-remove-edges-seed-falsy", ["C13"], U, "    A = A.astype(bool).astype(int)\n    rng = np.random.default_rng(random_state)\n    edges = directed_edges(A)", "    A = A.astype(bool).astype(int)\n    rng = np.random.default_rng(random_state or None)\n    edges = directed_edges(A)", note="needs random_state = 0")
